@@ -372,6 +372,13 @@ def run(ctx):
                 ops.append(f'c10.mice {draft} {rng.choice([0, 1, 1 << 20])} {hexs(hdr)} {hexs(rsz.to_bytes(8, "big") + stream[8:])}')
         for h in (b'', b'mi-sha256-03=', b'mi-sha256-03=AAAA', b'x' * 3000):
             ops.append(f'c10.mice {draft} 16384 {hexs(h)} {hexs(bytes(40))}')
+        # the digest header value itself: every prefix, list forms, missing '=', other algorithms, separators
+        stream, hdr = micelib.encode(b'hello world', 16, draft)
+        name = hdr.split(b'=')[0]
+        for h in [hdr[:i] for i in range(len(hdr) + 1)] + [name, name + b' ', b' ' + name, b'sha-256=abcd, ' + name, b'foo,' + name + b',bar', name + b',' + hdr, hdr + b',' + name,
+                                                            b'sha-256=abcd,' + hdr, hdr + b', sha-256=abcd', b',', b'=', b'==', name + b'==', b'=' + hdr, hdr.replace(b'=', b' = ', 1),
+                                                            name.upper() + b'=' + hdr.split(b'=', 1)[1], hdr + b'=', hdr + b';q=1']:
+            ops.append(f'c10.mice {draft} 16384 {hexs(h)} {hexs(stream)}')
 
     # ---- integrity-block detection
     for f in bfiles[:4] + [b'', b'\x84', bytes(9), bytes(10), bytes(18), b'\x84\x48' + '🖋📦'.encode() + bytes(30)]:
